@@ -127,6 +127,8 @@ def step (st : St) (op : List String) (impl : String) : St × String :=
         | none => ({ st with store := { out.store with faults := [] } }, model ++ "\tfail:unparsable-or-crashed")
         | some io =>
           let (v, tw') := verdict st env (.make req) io tw
+          -- C18: the call went through the trait; the model is the direct method
+          let v := if st.prop = "C18" && v == "ok" && impl != model then "fail:trait-call-differs-from-the-direct-method" else v
           ({ st with store := { out.store with faults := [] }, implStore := io.store, twins := tw' }, model ++ "\t" ++ v)
   | "au.get" :: f =>
     let (f, tw) := match f.reverse with
@@ -156,6 +158,7 @@ def step (st : St) (op : List String) (impl : String) : St × String :=
           let sig := match io.res with | .getOk _ _ _ _ s => s | _ => []
           let model := showObs (obsOfGet out sig)
           let (v, tw') := verdict st env (.get req) io tw
+          let v := if st.prop = "C18" && v == "ok" && impl != model then "fail:trait-call-differs-from-the-direct-method" else v
           ({ st with store := { out.store with faults := [] }, implStore := io.store, twins := tw' }, model ++ "\t" ++ v)
   | ["au.info", uvs] =>
     match parseUv uvs with
